@@ -413,6 +413,7 @@ type Cfg struct {
 	Cbs      string // pw pk kbd bits
 	Vpk      bool
 	Ban      string // n | e | m
+	Pre      string // PreAuthConnCallback: n | c (set) | b (set, sends a banner)
 	Algs     []string
 	Addr     string         // nil | unix | tcp~<ip>
 	Perms    map[int]PermRow // id ≥ 1
@@ -431,8 +432,12 @@ func (c Cfg) String(reqs []Req) string {
 	if len(c.Algs) > 0 {
 		algs = strings.Join(c.Algs, ",")
 	}
-	fmt.Fprintf(&sb, "sauth mt=%d nca=%s ncacb=%s cbs=%s vpk=%s ban=%s algs=%s addr=%s", c.MaxTries, b01(c.NCA), b01(c.NCACb),
-		c.Cbs, b01(c.Vpk), c.Ban, algs, c.Addr)
+	pre := c.Pre
+	if pre == "" {
+		pre = "n"
+	}
+	fmt.Fprintf(&sb, "sauth mt=%d nca=%s ncacb=%s cbs=%s vpk=%s ban=%s pre=%s algs=%s addr=%s", c.MaxTries, b01(c.NCA), b01(c.NCACb),
+		c.Cbs, b01(c.Vpk), c.Ban, pre, algs, c.Addr)
 	ids := make([]int, 0, len(c.Perms))
 	for id := range c.Perms {
 		ids = append(ids, id)
